@@ -118,7 +118,7 @@ MODELLED = {
     'lark/utils.py': ['small_factors', 'TextSlice.__post_init__', 'Serialize.serialize', 'Serialize.deserialize', '_serialize', '_deserialize'],
     'lark/load_grammar.py': ['EBNF_to_BNF._add_repeat_rule', 'EBNF_to_BNF._add_repeat_opt_rule', 'EBNF_to_BNF._generate_repeats', 'EBNF_to_BNF.expr',
                              'GrammarBuilder.do_import', '_get_mangle', '_mangle_definition_tree', 'GrammarBuilder._extend', 'GrammarBuilder._define', 'SimplifyRule_Visitor.expansion',
-                             'EBNF_to_BNF._add_rule', 'EBNF_to_BNF._add_recurse_rule', 'EBNF_to_BNF.maybe', 'FindRuleSize._will_not_get_removed'],
+                             'EBNF_to_BNF._add_rule', 'EBNF_to_BNF._add_recurse_rule', 'EBNF_to_BNF.maybe', 'FindRuleSize._will_not_get_removed', 'FindRuleSize._args_as_int', 'FindRuleSize.expansion', 'FindRuleSize.expansions'],
     'lark/lexer.py': ['LineCounter.feed', 'LineCounter.advance_to', 'LineCounter.from_text_slice', '_create_unless', 'Scanner._build_mres', 'Scanner.match', 'Scanner.search',
                       'BasicLexer.__init__', 'BasicLexer._build_scanner', 'BasicLexer.next_token', 'ContextualLexer.__init__', 'ContextualLexer.lex'],
     'lark/parsers/earley.py': ['Parser.predict_and_complete', 'Parser._parse', 'Parser.parse'],
@@ -156,6 +156,25 @@ def fingerprints():
             out['%s:%s' % (rel, name)] = hashlib.sha256(ast.dump(node, annotate_fields=False, include_attributes=False).encode()).hexdigest()[:16]
     return out, missing
 
+def find_rule_size(tree):
+    """load_grammar.FindRuleSize: which aggregate each method applies, and when a symbol counts"""
+    out = []
+    for meth in ('expansion', 'expansions'):
+        fn = _find(tree, 'FindRuleSize.' + meth, 'lark/load_grammar.py')
+        rets = [n for n in ast.walk(fn) if isinstance(n, ast.Return)]
+        if len(rets) != 1 or not isinstance(rets[0].value, ast.Call) or not isinstance(rets[0].value.func, ast.Name):
+            raise ExtractError('FindRuleSize.%s: not of the form `return f(...)`' % meth)
+        out.append((meth, rets[0].value.func.id + '(' + ', '.join(ast.unparse(a) for a in rets[0].value.args) + ')'))
+    fn = _find(tree, 'FindRuleSize._will_not_get_removed', 'lark/load_grammar.py')
+    for n in fn.body:
+        if isinstance(n, ast.If) and len(n.body) == 1 and isinstance(n.body[0], ast.Return):
+            out.append((ast.unparse(n.test), ast.unparse(n.body[0].value)))
+    fn = _find(tree, 'FindRuleSize._args_as_int', 'lark/load_grammar.py')
+    for n in ast.walk(fn):
+        if isinstance(n, ast.Yield):
+            out.append(('yield', ast.unparse(n.value)))
+    return out
+
 def lean_str_list(l):
     return '[' + ', '.join(json.dumps(x) for x in l) + ']'
 
@@ -174,6 +193,7 @@ def extract():
         'unhashableOptions': unhashable(lk),
         'optionDefaults': option_defaults(lk),
         'cacheKeyShape': cache_key_shape(lk),
+        'findRuleSize': find_rule_size(lg),
     }
     return vals
 
@@ -194,6 +214,8 @@ def render(vals):
     L.append('def unhashableOptions : List String := ' + lean_str_list(vals['unhashableOptions']))
     L.append('def optionDefaults : List String := ' + lean_str_list(vals['optionDefaults']))
     L.append('def cacheKeyShape : List String := ' + lean_str_list(vals['cacheKeyShape']))
+    L.append('/-- lark/load_grammar.py FindRuleSize: (method or condition, expression) -/')
+    L.append('def findRuleSize : List (String × String) := ' + keylist(vals['findRuleSize']))
     L.append('end Extracted')
     return '\n'.join(L) + '\n'
 
